@@ -7,6 +7,8 @@ mod auth;
 mod integrity;
 mod leak;
 mod upgrade;
+mod archive;
+mod files;
 use hcommon::parse_cli;
 
 fn main() {
@@ -19,6 +21,8 @@ fn main() {
         "integrity" => integrity::run(&cli),
         "leak" => leak::run(&cli),
         "upgrade" => upgrade::run(&cli),
+        "archive" => archive::run(&cli),
+        "files" => files::run(&cli),
         "sched" => sync::run_sched(&cli),
         d => {
             eprintln!("unknown domain {d}");
